@@ -150,6 +150,11 @@ def matrix(kind, tier, seed):
         M.append(_c("DecoupledGP", "VVD2tiny", order=("orth", 2), costs=[2, 1], budget=9, max_steps=20))
         M.append(_c("PaVeBa", "VVD2a", order=("theta", 60), eps=0.15, contraction=8))
         M.append(_c("Auer", "VVD2a", eps=0.15, contraction=8, max_steps=40))
+        # many rounds on 32 designs: the active set shrinks to index sets whose iteration order is not ascending
+        M.append(_c("PaVeBa", "Test", order=("orth", 2), eps=0.01, noise=0.1, contraction=16, max_steps=(15 if q else 40)))
+        M.append(_c("PaVeBa", "Test", order=("theta", 120), eps=0.01, noise=0.1, contraction=16, max_steps=(15 if q else 40)))
+        M.append(_c("Auer", "Test", eps=0.01, noise=0.1, contraction=16, max_steps=(15 if q else 40)))
+        M.append(_c("Auer", "Test", eps=0.01, noise=0.1, contraction=8, empirical=True, max_steps=(15 if q else 40)))
         M.append(_c("NaiveElimination", "VVD2a", order=("orth", 2), eps=0.2, L=4))
     rnd = random.Random(seed)
     out = []
